@@ -13,6 +13,8 @@ use rand::SeedableRng;
 
 // ------------------------------------------------------------------ spec generation (as YAML text)
 
+thread_local! { static BIG: std::cell::Cell<bool> = std::cell::Cell::new(false); }
+
 const NAMES: &[&str] = &["a", "b", "c", "k1", "k2", "x", "y", "opt", "0", "1", "init", "optional"];
 
 fn num(r: &mut Prng) -> f64 {
@@ -119,13 +121,17 @@ pub fn gen_spec_yaml(r: &mut Prng, depth: usize, indent: usize, out: &mut String
             }
         }
         4 => {
-            out.push_str(&format!("{}type: array\n{}size: {}\n{}valueType:\n", pad, pad, 2 + r.below(3), pad));
+            let size = if BIG.with(|b| b.get()) && r.chance(1, 2) { 120 + r.below(200) } else { 2 + r.below(3) };
+            out.push_str(&format!("{}type: array\n{}size: {}\n{}valueType:\n", pad, pad, size, pad));
             gen_spec_yaml(r, depth - 1, indent + 2, out);
         }
         5 => {
             // anon map
-            let form = r.below(6);
+            let form = r.below(8);
             let (mn, mx, init): (Option<usize>, Option<usize>, usize) = match form {
+                // larger maps (hash-map iteration order is not key order from 5 entries on)
+                6 => (None, None, 5 + r.below(4)),
+                7 => (Some(2), Some(12), 6 + r.below(3)),
                 0 => (None, None, r.below(4)),
                 1 => {
                     let a = r.below(3);
@@ -339,10 +345,34 @@ pub fn run_case(master: u64, idx: u64, profile: &str) -> OpsCase {
     let mut r = Prng::new(master.wrapping_mul(7_000_003).wrapping_add(idx));
     let mut yaml = String::new();
     let depth = 1 + r.below(3);
+    // profile p0big: large arrays, so that one call makes hundreds of Bernoulli draws
+    BIG.with(|b| b.set(profile == "p0big"));
+    let long = profile == "long" || profile == "p1long";
+    let profile = match profile {
+        "p0big" => "p0",
+        "p1long" => "p1",
+        x => x,
+    };
     // root must be a map document: wrap in a sub with one or two members unless the root kind is explicit
+    let family = r.below(3);
     let spec: Spec = loop {
         yaml.clear();
-        gen_spec_yaml(&mut r, depth, 0, &mut yaml);
+        if BIG.with(|b| b.get()) {
+            // one large array at the root: hundreds of Bernoulli draws per call
+            yaml.push_str(&format!("v:\n  type: array\n  size: {}\n  valueType:\n", 100 + r.below(120)));
+            BIG.with(|b| b.set(false));
+            gen_spec_yaml(&mut r, depth.min(2) - 1, 4, &mut yaml);
+            BIG.with(|b| b.set(true));
+        } else if long && family == 0 {
+            // histories of re-materialisation: maps below an initially absent optional and below a
+            // non-initial variant option, each with several initial elements and no bounds
+            for k in 1..=6 {
+                yaml.push_str(&format!("o{}:\n  type: optional\n  initPresent: false\n  valueType:\n    type: anon map\n    initSize: 3\n    valueType:\n      type: bool\n      init: false\n", k));
+            }
+            yaml.push_str("v:\n  type: variant\n  init: a\n  a:\n    type: const\n  b:\n    type: anon map\n    initSize: 4\n    valueType:\n      type: bool\n      init: true\n");
+        } else {
+            gen_spec_yaml(&mut r, depth, 0, &mut yaml);
+        }
         match spec_util::from_yaml_str(&yaml) {
             Ok(s) => break s,
             Err(_) => continue,
@@ -359,13 +389,63 @@ pub fn run_case(master: u64, idx: u64, profile: &str) -> OpsCase {
     let mut pool: Vec<Value> = vec![v0.clone()];
     let crossover = Crossover::new();
     let mut ops: Vec<String> = Vec::new();
-    let steps = if profile == "long" { 40 + r.below(80) } else { 4 + r.below(16) };
+    let steps = if long { 40 + r.below(80) } else if BIG.with(|b| b.get()) { 2 + r.below(3) } else { 4 + r.below(16) };
     let (mut n_mut, mut n_cross) = (0, 0);
     let mut panicked = None;
     let res = std::panic::catch_unwind(std::panic::AssertUnwindSafe(|| {
         // the context registers the initial value, as AlgoContext::new does
         ctx.add_nodes_for(&v0);
-        for _ in 0..steps {
+        let directed = long && family == 0 && profile != "p1";
+        // search state of the directed strategy: per optional path, has its map grown yet; once a map
+        // that held at most key 0 has grown (the key manager of that path is then at most 2 while a
+        // freshly materialised map holds keys 0..2), switch to probability 1 on the initial value
+        let mut grown = [false; 6];
+        let mut phase_b = false;
+        let keys_of = |v: &Value, k: usize| -> Option<Vec<u64>> {
+            match &v.to_json()[format!("o{}", k + 1).as_str()] {
+                serde_json::Value::Object(m) => Some(m.keys().filter_map(|s| s.parse().ok()).collect()),
+                _ => None,
+            }
+        };
+        for _step in 0..steps {
+            if directed {
+                let (src, prob_) = if phase_b {
+                    (0usize, 1.0)
+                } else {
+                    // the value whose not-yet-grown maps are smallest
+                    let score = |v: &Value| -> usize { (0..6).filter(|k| !grown[*k]).map(|k| keys_of(v, k).map(|x| x.len()).unwrap_or(3)).sum() };
+                    let mut best = pool.len() - 1;
+                    for i in 0..pool.len() {
+                        if score(&pool[i]) < score(&pool[best]) {
+                            best = i;
+                        }
+                    }
+                    (best, *r.pick(&[0.35, 0.5, 0.5]))
+                };
+                let p = MutationParams { mutation_prob: prob_, mutation_scale: 1.0 };
+                let out = mutation::mutate(&spec, &pool[src], &p, &mut ctx, &mut rng);
+                if !phase_b {
+                    for k in 0..6 {
+                        if grown[k] {
+                            continue;
+                        }
+                        match (keys_of(&pool[src], k), keys_of(&out, k)) {
+                            (Some(a), Some(b)) if b.iter().any(|x| !a.contains(x)) => {
+                                grown[k] = true;
+                                if a.iter().all(|x| *x == 0) {
+                                    phase_b = true;
+                                }
+                            }
+                            (None, Some(b)) if b.len() > 3 => grown[k] = true,
+                            _ => {}
+                        }
+                    }
+                }
+                ops.push(format!("OMut {}%nat {} {} {}", src, fb(p.mutation_prob), fb(p.mutation_scale), value_to_coq(&out.0)));
+                pool.push(out);
+                n_mut += 1;
+                continue;
+            }
             if r.chance(2, 3) || pool.len() < 2 {
                 let src = if r.chance(2, 3) { pool.len() - 1 } else { r.below(pool.len()) };
                 let p = MutationParams { mutation_prob: if profile == "p1" { 1.0 } else if profile == "p0" { 0.0 } else { prob(&mut r) }, mutation_scale: mscale(&mut r) };
@@ -397,6 +477,21 @@ pub fn run_case(master: u64, idx: u64, profile: &str) -> OpsCase {
                 ));
                 pool.push(out);
                 n_cross += 1;
+            }
+        }
+        if BIG.with(|b| b.get()) {
+            // search: many more calls at probability 0; a call that returns its input changes neither
+            // the pool nor the key counters and is not recorded, one that does not is the failing input
+            for _ in 0..400 {
+                let src = r.below(pool.len());
+                let p = MutationParams { mutation_prob: 0.0, mutation_scale: mscale(&mut r) };
+                let out = mutation::mutate(&spec, &pool[src], &p, &mut ctx, &mut rng);
+                if out.to_json() != pool[src].to_json() {
+                    ops.push(format!("OMut {}%nat {} {} {}", src, fb(p.mutation_prob), fb(p.mutation_scale), value_to_coq(&out.0)));
+                    pool.push(out);
+                    n_mut += 1;
+                    break;
+                }
             }
         }
     }));
